@@ -323,7 +323,7 @@ func init() {
 			cj, _ := json.Marshal(k2)
 			c.Fail(Failure{Kind: "failing-input", Signature: "K2", What: "determinism of topk at a tie", Case: cj,
 				Request: k2.E.Text() + " over two series {c=one}, {c=two} with equal value, 60 runs",
-				Impl: fmt.Sprint(seen), Model: "Metric.vecStep keeps the first in arrival order; C11_topk_spec"})
+				Impl:    fmt.Sprint(seen), Model: "Metric.vecStep keeps the first in arrival order; C11_topk_spec"})
 		}
 	}
 
@@ -449,7 +449,6 @@ func init() {
 		}
 	}
 }
-
 
 // c11DistinctValues gives every record a distinct unwrap value so that topk/sort have no ties.
 func c11DistinctValues(t *MetricCase) {
